@@ -12,6 +12,7 @@ package c17
 import (
 	"errors"
 	"fmt"
+	"math"
 	"reflect"
 	"strings"
 	"sync"
@@ -350,6 +351,14 @@ func pool() []pair {
 		"uint64max": func() types.Value { return types.NewUint64(^uint64(0)) },
 		"f64":       func() types.Value { return types.NewFloat64(1.5) },
 		"f32":       func() types.Value { return types.NewFloat32(-2.25) },
+		// special floats: not-a-number, the infinities, and ordinary epoch-millisecond magnitudes (seeded change
+		// c17m: a NaN decoded into time.Time once made every later float of that width fail for that target)
+		"f64NaN":    func() types.Value { return types.NewFloat64(math.NaN()) },
+		"f64Inf":    func() types.Value { return types.NewFloat64(math.Inf(1)) },
+		"f64NegInf": func() types.Value { return types.NewFloat64(math.Inf(-1)) },
+		"f64ms":     func() types.Value { return types.NewFloat64(1700000000000) },
+		"f32NaN":    func() types.Value { return types.NewFloat32(float32(math.NaN())) },
+		"f32ms":     func() types.Value { return types.NewFloat32(1.7e9) },
 		"true":      func() types.Value { return types.True },
 		"false":     func() types.Value { return types.False },
 		"bin":       func() types.Value { return types.NewBinary([]byte{1, 2, 3, 4}) },
